@@ -28,6 +28,9 @@ import (
 // and a genuine data blob removed, every minimal message of <= k leaves, each with a stale, a foreign and a proposer
 // signature. Part 5 (parts45_test.go): crowded DA heights — more blobs than one retrieval batch, every genuine item on
 // every index up to two (five) batches. A panic of the scan goroutine is reported as the violation "scan-crashes".
+// Part 6 (restart_test.go): a clean restart with persisted caches in the middle of the scan — real RetrieveLoop and real
+// SyncLoop, every schedule between them, a stop at every point where emitted events have not been taken by the sync loop,
+// then a second life on the same store and cache directory whose rescan owes sync everything it has not got.
 
 const (
 	cEmpty = iota
